@@ -532,6 +532,38 @@ def domain_checks(_=None):
                     options.append([sp.Rational(3, 2)] if nonneg else [sp.Rational(3, 2), sp.Rational(-5, 2)])
             cart2 = _sets()[(inst + 1) % 3]["cart"]
             scal = express_base_scalars(cart2, sy[a]) if a != "cart" else None
+            # the boundary of the declared domain that lies on the z axis: cylindrical rho = 0 (z > 0 and z < 0),
+            # spherical theta = 0 and pi.  There the azimuth is not determined by the position, so conversions FROM
+            # Cartesian are not judged (atan2(0, 0)), and the origin (polar angle undefined as well) is left out;
+            # conversions from the curvilinear description are well defined and must keep the position, and
+            # cylindrical <-> spherical must round-trip.
+            boundary = []
+            if a == "cyl":
+                boundary = [(sp.Integer(0), az, z) for az in (sp.Rational(3, 4), sp.Integer(-2)) for z in (sp.Integer(2), sp.Integer(-2))]
+            elif a == "sph":
+                boundary = [(sp.Rational(3, 2), pol, az) for pol in (sp.Integer(0), sp.pi) for az in (sp.Rational(3, 4), sp.Integer(-2))]
+            for sample in boundary:
+                count += 1
+                point = AppliedPoint(list(sample), sy[a])
+                want_pos = [sp.N(c, 50) for c in project_point(a, list(sample))]
+                for b in SYSTEMS:
+                    if b == a:
+                        continue
+                    try:
+                        there = convert_point(point, sy[b])
+                        got_pos = [sp.N(c, 50) for c in project_point(b, list(there.coordinates.values()))]
+                        if not all(g.is_number and abs(g - w) < tol for g, w in zip(got_pos, want_pos)):
+                            problems.append((f"axis point {a} {list(sample)} -> {b} (instance {inst + 1})",
+                                             f"converted to {list(there.coordinates.values())}: Cartesian position {got_pos}, originally {want_pos}"))
+                            continue
+                        if b != "cart":
+                            back = convert_point(there, sy[a])
+                            got = [sp.N(c, 50) for c in back.coordinates.values()]
+                            if not all(g.is_number and abs(g - w) < tol for g, w in zip(got, sample)):
+                                problems.append((f"axis point {a} {list(sample)} -> {b} -> {a} (instance {inst + 1})",
+                                                 f"comes back as {list(back.coordinates.values())}"))
+                    except Exception as e:  # pylint: disable=broad-except
+                        problems.append((f"axis point {a} {list(sample)} -> {b} (instance {inst + 1})", f"raised {type(e).__name__}: {str(e)[:100]}"))
             for sample in product(*options):
                 count += 1
                 point = AppliedPoint(list(sample), sy[a])
